@@ -16,7 +16,7 @@
 //! the bitmap marks unspent cannot be omitted) and prints a sample of the cases as protocol lines
 //! for the model.
 use croaring::Bitmap;
-use grin_core::core::hash::{DefaultHashable, Hash, Hashed};
+use grin_core::core::hash::{Hash, Hashed};
 use grin_core::core::pmmr::segment::{Segment, SegmentError, SegmentIdentifier, SegmentProof};
 use grin_core::core::pmmr::{self, Backend, ReadablePMMR, ReadonlyPMMR, VecBackend, PMMR};
 use grin_core::ser::{self, PMMRIndexHashable, ProtocolVersion};
@@ -417,19 +417,30 @@ fn one_ident<B: Backend<Elem>>(
 		root: merged,
 		with: Some((hlp, other, left)),
 	};
-	cx.check(&p, &plain, bm, "honest", Expect::Accept, emit);
-	cx.check(&p, &with, bm, "honest-with", Expect::Accept, emit);
+	// Vec backend with an arbitrary bitmap: a height-0 segment whose leaf and sibling are both
+	// unmarked has no root of its own and does not carry its hash (the store cannot produce such a
+	// segment at all: `generate` fails on the spent sibling) -- compared with the model only
+	let unservable = !allow_gen_err && id.height == 0 && rs == "none";
+	let exp = if unservable { Expect::Any } else { Expect::Accept };
+	let v = cx.check(&p, &plain, bm, if unservable { "height0-both-unmarked" } else { "honest" }, exp, emit);
+	cx.check(&p, &with, bm, if unservable { "height0-both-unmarked" } else { "honest-with" }, exp, emit);
+	if v != "ok" {
+		return;
+	}
 	// a wrong side / wrong index / wrong other root in validate_with must be rejected
 	{
 		let mut w = with.clone();
 		w.with = Some((hlp, other, !left));
-		cx.check(&p, &w, bm, "with-wrong-side", Expect::Reject, emit && cx.rng.chance(1, 4));
+		let e = emit && cx.rng.chance(1, 4);
+		cx.check(&p, &w, bm, "with-wrong-side", Expect::Reject, e);
 		let mut w = with.clone();
 		w.with = Some((hlp + 1, other, left));
-		cx.check(&p, &w, bm, "with-wrong-index", Expect::Reject, emit && cx.rng.chance(1, 4));
+		let e = emit && cx.rng.chance(1, 4);
+		cx.check(&p, &w, bm, "with-wrong-index", Expect::Reject, e);
 		let mut w = with.clone();
 		w.with = Some((hlp, flip(&other, cx.rng), left));
-		cx.check(&p, &w, bm, "with-wrong-other", Expect::Reject, emit && cx.rng.chance(1, 4));
+		let e = emit && cx.rng.chance(1, 4);
+		cx.check(&p, &w, bm, "with-wrong-other", Expect::Reject, e);
 	}
 	let t = if cx.rng.chance(1, 3) { with } else { plain };
 	corruptions(cx, &p, &t, bm, emit, size);
@@ -563,7 +574,8 @@ fn corruptions(cx: &mut Cx, p: &Parts, t: &Target, bm: Option<&Bitmap>, emit: bo
 		let mut d = p.clone();
 		d.proof.insert(0, Hash::from_vec(&cx.rng.bytes(32)));
 		let e = em(cx);
-		cx.check(&d, t, bm, "proof-insert-front", Expect::Reject, e);
+		// (with an empty honest proof nothing is consumed, so the inserted hash is redundant too)
+		cx.check(&d, t, bm, "proof-insert-front", if p.proof.is_empty() { Expect::Accept } else { Expect::Reject }, e);
 		// a redundant hash after the consumed ones: not rejected
 		let mut d = p.clone();
 		d.proof.push(Hash::from_vec(&cx.rng.bytes(32)));
@@ -930,6 +942,6 @@ fn main() {
 }
 
 #[allow(dead_code)]
-fn _unused(_: &dyn DefaultHashable, _: Hash) {
+fn _unused() {
 	let _ = Elem(vec![]).hash();
 }
